@@ -120,6 +120,40 @@ pub fn cases(tier: &str) -> Vec<Value> {
             }
         }
     }
+    // (c) two exchanges on one service: the second question differs from the first in exactly one
+    // component (class, type, name, CD, DO, transport) and its upstream answer is a different one.
+    // What the second client gets must be what the upstream said to ITS question -- or, if the
+    // upstream was not asked at all, the first answer, and only for the identical question.
+    let base = json!({"name":"www.example.com","type":1,"class":1,"edns":"plain","flags":"rd","transport":"udp"});
+    let r1 = json!({"rcode": 0, "an": [0], "ns": [], "ar": [], "compress": true, "opt": true});
+    let r2 = json!({"rcode": 3, "an": [], "ns": [3], "ar": [], "compress": true, "opt": true});
+    let vary: Vec<(&str, Value)> = vec![
+        ("same", json!({})),
+        ("class-ch", json!({"class": 3})),
+        ("class-hs", json!({"class": 4})),
+        ("class-any", json!({"class": 255})),
+        ("type-aaaa", json!({"type": 28})),
+        ("type-mx", json!({"type": 15})),
+        ("name", json!({"name": "w2.example.com"})),
+        ("name-parent", json!({"name": "example.com"})),
+        ("cd", json!({"flags": "rd+cd"})),
+        ("do", json!({"edns": "do"})),
+        // EDNS present-but-plain vs absent is the same question (DO clear either way): a cache hit is fine
+        ("no-edns", json!({"edns": "none"})),
+    ];
+    for (vn, v) in &vary {
+        for tr2 in ["udp", "tcp"] {
+            for swap in [false, true] {
+                let mut q2 = base.clone();
+                for (k, val) in v.as_object().unwrap() {
+                    q2[k] = val.clone();
+                }
+                q2["transport"] = json!(tr2);
+                let (qa, qb) = if swap { (q2.clone(), base.clone()) } else { (base.clone(), q2.clone()) };
+                out.push(json!({"engine":"enet","check":"c03","kind":"pair","vary":vn,"same_question": *vn == "same" || *vn == "no-edns","q1":qa,"r1":r1,"q2":qb,"r2":r2}));
+            }
+        }
+    }
     out
 }
 
@@ -285,7 +319,129 @@ pub fn judge_faithful(qb_msg: &Msg, upstream: &Msg, client_bytes: &[u8], ttl_min
     out
 }
 
+/// Two exchanges on one service (see `cases`, part c).
+fn run_pair(case: &Value) -> CaseResult {
+    let spec = RigSpec { listeners: vec!["::1".into()], n_upstreams: 1, yaml: BASE_YAML.into() };
+    let mut rig = match Rig::start(&spec) {
+        Ok(r) => r,
+        Err(e) => return CaseResult::machinery(e),
+    };
+    let cip: IpAddr = "::1".parse().unwrap();
+    let mut res = CaseResult::ok("");
+    let vn = case["vary"].as_str().unwrap_or("");
+    let ex1 = match exchange(&mut rig, &case["q1"], &case["r1"], 0x5a5a, cip, 0) {
+        Ok(e) => e,
+        Err(e) => {
+            let ps = rig.stop();
+            if let Some(p) = ps.first() {
+                res.violations.push(Violation::new("no-reply-after-panic", format!("first exchange: service task panicked: {} at {}", p.msg, crate::common::panics::short_loc(&p.loc)), case.clone()));
+                return res;
+            }
+            return CaseResult::machinery(format!("first exchange: {e}"));
+        }
+    };
+    let up1 = ex1.upstream_reply.clone().unwrap();
+    // second exchange: the upstream may or may not be asked
+    let id2 = 0x6b6b;
+    let (q2m, q2b) = build_query(&case["q2"], id2);
+    let dst = rig.listen_addr(0);
+    let tcp = case["q2"]["transport"].as_str() == Some("tcp");
+    let mut uc = None;
+    let mut tc = None;
+    let sent = if tcp {
+        TcpClient::connect(Some(cip), dst).and_then(|mut c| {
+            c.conn.send_frame(&q2b)?;
+            tc = Some(c);
+            Ok(())
+        })
+    } else {
+        UdpClient::new(cip).and_then(|c| {
+            c.send(dst, &q2b)?;
+            uc = Some(c);
+            Ok(())
+        })
+    };
+    if let Err(e) = sent {
+        let _ = rig.stop();
+        return CaseResult::machinery(e);
+    }
+    let before_udp = rig.upstreams[0].udp_rx.len();
+    let before_tcp = rig.upstreams[0].tcp_frames_total();
+    let mut got: Option<Vec<u8>> = None;
+    let mut poll_client = |got: &mut Option<Vec<u8>>| -> bool {
+        if let Some(c) = uc.as_mut() {
+            c.poll();
+            if let Some((b, _)) = c.rx.first() {
+                *got = Some(b.clone());
+                return true;
+            }
+        }
+        if let Some(c) = tc.as_mut() {
+            c.poll();
+            if let Some(b) = c.conn.frames_in.first() {
+                *got = Some(b.clone());
+                return true;
+            }
+        }
+        false
+    };
+    let _ = rig.wait_until(|r| r.upstreams[0].udp_rx.len() > before_udp || r.upstreams[0].tcp_frames_total() > before_tcp || poll_client(&mut got), "second query is forwarded or answered");
+    let asked = rig.upstreams[0].udp_rx.len() > before_udp || rig.upstreams[0].tcp_frames_total() > before_tcp;
+    let mut up2: Option<Msg> = None;
+    if asked {
+        // answer it with r2
+        let (oqb, via_udp, src) = if rig.upstreams[0].udp_rx.len() > before_udp {
+            let (b, s) = rig.upstreams[0].udp_rx[before_udp].clone();
+            (b, true, Some(s))
+        } else {
+            let c = rig.upstreams[0].conns.iter().rev().find(|c| !c.frames_in.is_empty()).unwrap();
+            (c.frames_in.last().unwrap().clone(), false, None)
+        };
+        match rd::decode(&oqb) {
+            Ok((oq, _)) => {
+                if oq.question != q2m.question {
+                    res.violations.push(Violation::new("forwarded-question", format!("the question put to the upstream {:?} is not the client's {:?}", oq.question, q2m.question), case.clone()).sig("vary", vn));
+                }
+                let reply = build_reply(&case["r2"], &oq);
+                let rb = rd::encode(&reply, true);
+                let _ = if via_udp { rig.upstreams[0].udp_reply(src.unwrap(), &rb) } else { rig.upstreams[0].conns.iter_mut().rev().find(|c| !c.frames_in.is_empty()).unwrap().send_frame(&rb) };
+                up2 = Some(reply);
+            }
+            Err(e) => res.violations.push(Violation::new("upstream-query-malformed", format!("second query sent upstream is malformed: {e}"), case.clone())),
+        }
+        let _ = rig.wait_until(|_r| poll_client(&mut got), "second client receives the reply");
+    }
+    let ps = rig.stop();
+    res.class = format!("pair:{vn}:{}", if asked { "forwarded" } else { "not-forwarded" });
+    let Some(bytes) = got else {
+        let extra = ps.first().map(|p| format!(" (service task panicked: {} at {})", p.msg, crate::common::panics::short_loc(&p.loc))).unwrap_or_default();
+        res.violations.push(Violation::new("no-reply", format!("the second client received no reply{extra}"), case.clone()).sig("vary", vn));
+        return res;
+    };
+    if asked {
+        if let Some(up2) = up2 {
+            for (oracle, what) in judge_faithful(&q2m, &up2, &bytes, 0) {
+                res.violations.push(Violation::new(oracle, format!("second exchange ({vn}): {what}"), case.clone()).sig("oracle", oracle).sig("vary", vn));
+            }
+        }
+    } else if case["same_question"].as_bool() == Some(true) {
+        // answered from the first exchange: must be that answer (no time has passed)
+        for (oracle, what) in judge_faithful(&q2m, &up1, &bytes, 0) {
+            res.violations.push(Violation::new(oracle, format!("second, identical question answered without asking the upstream: {what}"), case.clone()).sig("oracle", oracle).sig("vary", vn));
+        }
+    } else {
+        let (m, _) = rd::decode(&bytes).unwrap_or((Msg { id: 0, flags: 0, question: vec![], answer: vec![], authority: vec![], additional: vec![] }, Default::default()));
+        res.violations.push(
+            Violation::new("answered-without-asking", format!("the second question differs from the first in '{vn}' but was never put to the upstream; the client got rcode {} with {} answer record(s) -- not what any upstream said to this question", m.rcode(), m.answer.len()), case.clone()).sig("vary", vn),
+        );
+    }
+    res
+}
+
 pub fn run_case(case: &Value) -> CaseResult {
+    if case["kind"].as_str() == Some("pair") {
+        return run_pair(case);
+    }
     let spec = RigSpec { listeners: vec!["::1".into()], n_upstreams: 1, yaml: BASE_YAML.into() };
     let mut rig = match Rig::start(&spec) {
         Ok(r) => r,
@@ -348,7 +504,7 @@ pub fn run(tier: &str, replay: Option<Value>) -> ! {
     let agg = netrun::run_sharded(&mut rep, "C03", tier, cases, 16);
     rep.cov("evaluations", agg.executions);
     rep.cov("distinct_nontrivial", agg.classes.len() as u64);
-    rep.cov("rule", "one fault-free exchange per execution on a fresh in-process DnsService ([::1] listener): (a) every query shape (3 names x 5 types x 2 classes x 5 EDNS x 3 flag sets x UDP/TCP) x fixed replies; (b) fixed queries x every reply shape (rcodes x one section over all record lists of length <=2 from a 9-record alphabet (incl. records whose names share a suffix first written inside an earlier record's rdata), the other sections in {[],[1]} x compression x OPT absent / last / first / in the middle of the additional section). distinct = (rcode, section sizes, transport) classes");
+    rep.cov("rule", "one fault-free exchange per execution on a fresh in-process DnsService ([::1] listener): (a) every query shape (3 names x 5 types x 2 classes x 5 EDNS x 3 flag sets x UDP/TCP) x fixed replies; (b) fixed queries x every reply shape (rcodes x one section over all record lists of length <=2 from a 9-record alphabet (incl. records whose names share a suffix first written inside an earlier record's rdata), the other sections in {[],[1]} x compression x OPT absent / last / first / in the middle of the additional section); (c) pairs of exchanges on one service whose second question differs from the first in one component (class x3, type x2 (QTYPE ANY is answered locally and therefore not part of this alphabet), name x2, CD, DO, EDNS, or nothing) x transport x order, the second answered differently upstream: the second client must get the upstream's answer to ITS question, or -- only for the identical question -- the first answer. distinct = (rcode, section sizes, transport) classes");
     rep.cov("exhaustive", true);
     rep.cov("outcome_classes", serde_json::json!(agg.classes));
     rep.cov("workers_in_private_netns", agg.isolated_workers as u64);
